@@ -24,10 +24,15 @@ type World struct {
 	consts     map[string]string     // "pkgname.Const" -> exact value
 	obsMemo    map[*types.Func]int   // 1 observer, 2 not
 	detMemo    map[*types.Func]bool
+	predMemo   map[*types.Func]*predFormula
+	InlinePreds bool // second reading: boolean helper calls stand for their bodies (see inline.go)
 	obsUse     map[types.Object]bool
 	obsDef     map[ast.Expr]bool
 	Vocab      VocabSnapshot         // local signatures recorded when the rule tables were written (nil: none)
 	Renamed    []string              // renamed locals recognised in this run
+	Spliced    []string              // helper functions read in place of their calls in this run
+	NoSplice   bool
+	vocabFuncs map[string]bool
 }
 
 // Unit is one analysable function body: a declaration or a function literal inside one.
@@ -130,13 +135,22 @@ func (w *World) Unit(name string) (*Unit, error) {
 func (w *World) build(name string, fn *load.Func, lit *ast.FuncLit, recv *ast.FieldList, ft *ast.FuncType, body *ast.BlockStmt, outer *flow.Canon) *Unit {
 	info := fn.Pkg.TypesInfo
 	u := &Unit{W: w, Name: name, Fn: fn, Lit: lit, Body: body, Type: ft, pc: map[*flow.Block]*flow.F{}}
-	u.G = flow.Build(body, w.noReturn(info))
+	u.G = flow.BuildInlining(body, w.noReturn(info), w.inliner(fn, lit != nil))
 	var alias map[types.Object]flow.LocalAlias
 	if outer == nil && w.Vocab != nil {
-		alias = w.aliasesFor(name, info, recv, ft, body)
+		alias = w.aliasesFor(name, info, recv, ft, body, u.G.Inlined)
 	}
 	u.C = flow.NewCanonAliased(info, fn.Pkg.Types, recv, ft, body, outer, alias)
+	if len(u.G.Inlined) > 0 {
+		u.C.AddInlined(body, u.G.Inlined, nil)
+		for _, ic := range u.G.Inlined {
+			w.Spliced = append(w.Spliced, name+" <- "+ic.Decl.Name.Name)
+		}
+	}
 	u.C.ObsOK = func(o types.Object, def ast.Expr, use *ast.Ident) bool { return w.obsExpandOK(u, o, def, use) }
+	if w.InlinePreds {
+		u.C.Inline = func(call *ast.CallExpr) *flow.F { return w.inlineCall(u, call) }
+	}
 	u.Sites = flow.CollectSites(u.G, info)
 	return u
 }
